@@ -617,8 +617,25 @@ def check(run, project):
         run.ob("X1", cls in DOCUMENTED, f"pump raise at L{node.lineno}: {cls}", f"the pump raises undocumented {cls}", module=lg.roles.mod,
                node=node.ast, func=lg.roles.pump.name, construct=f"pump raise {cls}")
     # the encrypted-layout classmethod is only ever called on parameter areas (a dataclass *field* of that name is None)
-    from .c01 import encrypted_guard
+    from .c01 import encrypted_guard, helper_semantics
     encrypted_guard(run, lg.roles, lg.L, "X1")
+    # ... and on every parameter area of L it returns a layout instead of failing: the fold of encrypted() over all parameter
+    # areas (C01-F) is re-used; only its "raises" outcomes are C06's business
+    from ..report import RuleView
+
+    class Failures(RuleView):
+        n = 0
+
+        def ob(self, rule, ok, *a, **kw):
+            if rule == "F" and "encrypted()" in str(kw.get("construct", "")):
+                Failures.n += 1
+                if kw.get("construct") == "encrypted() failure":
+                    return self._run.ob("X1", ok, *a, **kw)
+            return None
+    helper_semantics(Failures(run, "F", "X1"), project, lg.roles)
+    run.ob("X1", Failures.n >= 200, f"encrypted() evaluated without an internal error on {Failures.n} parameter areas",
+           f"encrypted() could be folded over only {Failures.n} parameter areas", module=lg.roles.mod, node=lg.roles.mod.tree,
+           func="TPMS_PARAMS.encrypted", construct="encrypted() total")
     x2(run, lg)
     run.floor("X1", 70, "failure sites")
     run.floor("X2", 20)
